@@ -15,6 +15,7 @@ RULE = ("translator: every _build_linear_operator under exponax/stepper (Wave ex
         "(b) _exp_term vs exp(dt*lambda) for the linear classes, (c) Wave.step_fourier vs the extracted wave_mode at every stored mode; witness: stepper(u) vs the analytic "
         "solution of the DOCUMENTED PDE for single modes and superpositions below Nyquist (symbols recomputed in Python from the docstring formulas), n-fold vs n*dt, -dt round trip, "
         "dt up to 1e3. Non-trivial: non-constant modes; distinct by input hash.")
+TRUSTED_EXTRA = ["harness/translate/linops.py (kinds / broadcasting / einsum reading of every _build_linear_operator) and harness/translate/etdrk.py (coefficient integrands, stage programs)"]
 ASSUMPTIONS = ["jnp.exp is the exponential; rfftn/irfftn are the DFT pair of C04", "symbol calculus for exponentials (d/dx e^{ikx} = ik e^{ikx})"]
 
 
